@@ -466,7 +466,9 @@ def _scripted_guess(kind, tr, step, seed):
     elif kind == "s_high":
         if 2 * n > nov:
             return None, C
-        g = (Xd[:, n : 2 * n] + 1e-3 * Xd[:, :n]).T
+        # higher states with a 5 % admixture of the lowest ones: the admixture leaves a residual of ~1e-2 eV,
+        # far above every tolerance of the lattice, so a correct solver must rotate down to the lowest states
+        g = (Xd[:, n : 2 * n] + 0.05 * Xd[:, :n]).T
         g /= np.linalg.norm(g, axis=1, keepdims=True)
     elif kind == "s_unit":
         idx = np.argsort(ref["d"], kind="stable")[:n]
